@@ -45,8 +45,14 @@ import (
 
 // ---- C08: the library's message, event and State types ----------------------
 
-// pair is one value before and after a checkpoint round trip.
-type pair struct{ want, got reflect.Value }
+// pair is one value before and after a checkpoint round trip; variant names how the
+// restore was done: "fresh" (into a rebuilt object), "dirty_target" (into another
+// object of the same type that already holds a different value W — nothing of W may
+// survive), "same_live" (saved, the same live object then changed to W, loaded back).
+type pair struct {
+	variant   string
+	want, got reflect.Value
+}
 
 type libType struct {
 	Name  string // e.g. "msg mem memprotocol.ReadReq"
@@ -54,7 +60,8 @@ type libType struct {
 	Path  string // port | engine | component
 	Where string // defining call site (file), for the stale-list scan
 	T     reflect.Type
-	RT    func(v reflect.Value) ([]pair, error)
+	// RT round-trips v; mkW builds a fresh copy of a different value W of the same type.
+	RT func(v reflect.Value, mkW func() reflect.Value) ([]pair, error)
 }
 
 // protocols lists every DefineProtocol call site of the repository; the message
@@ -101,10 +108,25 @@ type checkpointable interface {
 	LoadCheckpoint(r io.Reader) error
 }
 
+// withMeta returns a copy of message value w whose Src/Dst are those of v, so that w
+// can be sent from the port v is sent from.
+func withMeta(w, v reflect.Value) reflect.Value {
+	c := reflect.New(w.Type()).Elem()
+	c.Set(w)
+	mw, mv := c.FieldByName("MsgMeta"), v.FieldByName("MsgMeta")
+	if mw.IsValid() && mv.IsValid() {
+		mw.FieldByName("Src").Set(mv.FieldByName("Src"))
+		mw.FieldByName("Dst").Set(mv.FieldByName("Dst"))
+	}
+	return c
+}
+
 // portRT puts the message into both buffers of a real port (incoming through
 // Deliver together with a zero message of the same type; outgoing through Send when
-// the message's Src/Dst allow it), saves the port and loads it into a rebuilt one.
-func portRT(v reflect.Value) ([]pair, error) {
+// the message's Src/Dst allow it), saves the port and loads it (a) into a rebuilt
+// port, (b) into a port of the same shape whose buffers already hold other messages,
+// (c) back into the saved port after its buffers were changed.
+func portRT(v reflect.Value, mkW func() reflect.Value) ([]pair, error) {
 	m, ok := v.Interface().(messaging.Msg)
 	if !ok {
 		return nil, fmt.Errorf("harness: %s is not a messaging.Msg", v.Type())
@@ -121,6 +143,7 @@ func portRT(v reflect.Value) ([]pair, error) {
 		p.SetConnection(&stubConn{})
 		return p
 	}
+	other := func() messaging.Msg { return withMeta(mkW(), v).Interface().(messaging.Msg) }
 	p1 := mk()
 	p1.Deliver(m)
 	p1.Deliver(zero)
@@ -135,28 +158,51 @@ func portRT(v reflect.Value) ([]pair, error) {
 	if err := cp1.SaveCheckpoint(&buf); err != nil {
 		return nil, fmt.Errorf("save: %w", err)
 	}
-	p2 := mk()
-	if err := p2.(checkpointable).LoadCheckpoint(&buf); err != nil {
-		return nil, fmt.Errorf("load: %w", err)
-	}
-	want := []messaging.Msg{m, zero}
-	if p2.NumIncoming() != 2 {
-		return nil, fmt.Errorf("changed: incoming buffer holds %d messages, want 2", p2.NumIncoming())
-	}
+	data := buf.Bytes()
 	var ps []pair
-	for _, w := range want {
-		g := p2.RetrieveIncoming()
-		ps = append(ps, pair{reflect.ValueOf(w), reflect.ValueOf(g)})
+	read := func(variant string, p2 messaging.Port) error {
+		if err := p2.(checkpointable).LoadCheckpoint(bytes.NewReader(data)); err != nil {
+			return fmt.Errorf("%s: load: %w", variant, err)
+		}
+		if p2.NumIncoming() != 2 {
+			return fmt.Errorf("%s: changed: incoming buffer holds %d messages, want 2", variant, p2.NumIncoming())
+		}
+		for _, w := range []messaging.Msg{m, zero} {
+			ps = append(ps, pair{variant, reflect.ValueOf(w), reflect.ValueOf(p2.RetrieveIncoming())})
+		}
+		wantOut := 0
+		if sendable {
+			wantOut = 1
+		}
+		if p2.NumOutgoing() != wantOut {
+			return fmt.Errorf("%s: changed: outgoing buffer holds %d messages, want %d", variant, p2.NumOutgoing(), wantOut)
+		}
+		if sendable {
+			ps = append(ps, pair{variant, reflect.ValueOf(m), reflect.ValueOf(p2.RetrieveOutgoing())})
+		}
+		return nil
 	}
-	wantOut := 0
+	if err := read("fresh", mk()); err != nil {
+		return nil, err
+	}
+	p3 := mk()
+	p3.Deliver(other())
+	p3.Deliver(other())
+	p3.Deliver(zero)
 	if sendable {
-		wantOut = 1
+		p3.Send(other())
+		p3.Send(other())
 	}
-	if p2.NumOutgoing() != wantOut {
-		return nil, fmt.Errorf("changed: outgoing buffer holds %d messages, want %d", p2.NumOutgoing(), wantOut)
+	if err := read("dirty_target", p3); err != nil {
+		return ps, err
 	}
+	p1.RetrieveIncoming()
+	p1.Deliver(other())
 	if sendable {
-		ps = append(ps, pair{reflect.ValueOf(m), reflect.ValueOf(p2.RetrieveOutgoing())})
+		p1.Send(other())
+	}
+	if err := read("same_live", p1); err != nil {
+		return ps, err
 	}
 	return ps, nil
 }
@@ -165,64 +211,144 @@ type captureHandler struct{ got []timing.Event }
 
 func (h *captureHandler) Handle(e timing.Event) error { h.got = append(h.got, e); return nil }
 
-// engineRT schedules the event (and a zero-time sibling of the same type and handler)
-// on a real SerialEngine, saves it, loads it into a rebuilt engine with the same
-// handler registered, runs it and collects what the handler receives.
-func engineRT(v reflect.Value) ([]pair, error) {
+// engineRT schedules the event on a real SerialEngine, saves it, loads it (a) into a
+// rebuilt engine, (b) into a rebuilt engine whose clock already stands elsewhere (its
+// queue must be empty: LoadCheckpoint refuses otherwise), (c) back into the saved
+// engine after it ran; each time the engine is run and what the handler receives is
+// collected; the restored clock is compared too.
+func engineRT(v reflect.Value, _ func() reflect.Value) ([]pair, error) {
 	e, ok := v.Interface().(timing.Event)
 	if !ok {
 		return nil, fmt.Errorf("harness: %s is not a timing.Event", v.Type())
 	}
 	e1 := timing.NewSerialEngine()
-	e1.RegisterHandler(e.HandlerID(), &captureHandler{})
+	h1 := &captureHandler{}
+	e1.RegisterHandler(e.HandlerID(), h1)
 	e1.Schedule(e)
 	var buf bytes.Buffer
 	if err := e1.SaveCheckpoint(&buf); err != nil {
 		return nil, fmt.Errorf("save: %w", err)
 	}
-	e2 := timing.NewSerialEngine()
-	h := &captureHandler{}
-	e2.RegisterHandler(e.HandlerID(), h)
-	if err := e2.LoadCheckpoint(&buf); err != nil {
-		return nil, fmt.Errorf("load: %w", err)
+	data := buf.Bytes()
+	savedTime := e1.CurrentTime()
+	var ps []pair
+	read := func(variant string, e2 *timing.SerialEngine, h *captureHandler) error {
+		h.got = nil
+		if err := e2.LoadCheckpoint(bytes.NewReader(data)); err != nil {
+			return fmt.Errorf("%s: load: %w", variant, err)
+		}
+		ps = append(ps, pair{variant, reflect.ValueOf(savedTime), reflect.ValueOf(e2.CurrentTime())})
+		if err := e2.Run(); err != nil {
+			return fmt.Errorf("%s: run: %w", variant, err)
+		}
+		if len(h.got) != 1 {
+			return fmt.Errorf("%s: changed: the handler received %d events, want 1", variant, len(h.got))
+		}
+		ps = append(ps, pair{variant, reflect.ValueOf(e), reflect.ValueOf(h.got[0])})
+		return nil
 	}
-	if err := e2.Run(); err != nil {
-		return nil, fmt.Errorf("run: %w", err)
+	mk := func() (*timing.SerialEngine, *captureHandler) {
+		e2 := timing.NewSerialEngine()
+		h := &captureHandler{}
+		e2.RegisterHandler(e.HandlerID(), h)
+		return e2, h
 	}
-	if len(h.got) != 1 {
-		return nil, fmt.Errorf("changed: the handler received %d events, want 1", len(h.got))
+	e2, h2 := mk()
+	if err := read("fresh", e2, h2); err != nil {
+		return nil, err
 	}
-	return []pair{{reflect.ValueOf(e), reflect.ValueOf(h.got[0])}}, nil
+	e3, h3 := mk()
+	e3.SetCurrentTime(e.Time()/2 + 3)
+	if err := read("dirty_target", e3, h3); err != nil {
+		return ps, err
+	}
+	if err := e1.Run(); err != nil {
+		return ps, fmt.Errorf("same_live: run: %w", err)
+	}
+	if err := read("same_live", e1, h1); err != nil {
+		return ps, err
+	}
+	return ps, nil
 }
 
-// stateRT puts the State into a real modeling.Component built by the real builder
-// with the package's own Spec/State/Resources types, saves it and loads it into a
-// rebuilt component.
-func stateRT[S, T, R any](name string) func(v reflect.Value) ([]pair, error) {
-	return func(v reflect.Value) ([]pair, error) {
-		mk := func() (c *modeling.Component[S, T, R], msg string) {
-			msg = recovered(func() {
-				var spec S
-				c = modeling.NewBuilder[S, T, R]().WithEngine(timing.NewSerialEngine()).WithFreq(1 * timing.GHz).
-					WithSpec(spec).Build(strings.ToUpper(name[:1]) + name[1:])
-			})
-			return c, msg
-		}
+// stateHolder is what the two component flavours offer to the State round trip.
+type stateHolder[T any] struct {
+	state *T
+	cp    checkpointable
+}
+
+// holderRT saves a component holding v and loads the checkpoint (a) into a rebuilt
+// component, (b) into a rebuilt component whose State was first set to W, (c) back
+// into the saved component after its State was replaced by W.
+func holderRT[T any](mk func() (stateHolder[T], string), prefix string) func(v reflect.Value, mkW func() reflect.Value) ([]pair, error) {
+	return func(v reflect.Value, mkW func() reflect.Value) ([]pair, error) {
 		c1, msg := mk()
 		if msg != "" {
 			return nil, fmt.Errorf("harness: the builder refuses the library's own types: %s", msg)
 		}
-		c1.State = v.Interface().(T)
+		*c1.state = v.Interface().(T)
 		var buf bytes.Buffer
-		if err := c1.SaveCheckpoint(&buf); err != nil {
+		if err := c1.cp.SaveCheckpoint(&buf); err != nil {
 			return nil, fmt.Errorf("save: %w", err)
 		}
-		c2, _ := mk()
-		if err := c2.LoadCheckpoint(&buf); err != nil {
-			return nil, fmt.Errorf("load: %w", err)
+		data := buf.Bytes()
+		var ps []pair
+		read := func(variant string, c stateHolder[T]) error {
+			if err := c.cp.LoadCheckpoint(bytes.NewReader(data)); err != nil {
+				return fmt.Errorf("%s: load: %w", variant, err)
+			}
+			ps = append(ps, pair{variant, v, reflect.ValueOf(*c.state)})
+			return nil
 		}
-		return []pair{{v, reflect.ValueOf(c2.State)}}, nil
+		c2, _ := mk()
+		if err := read(prefix+"fresh", c2); err != nil {
+			return nil, err
+		}
+		c3, _ := mk()
+		*c3.state = mkW().Interface().(T)
+		if err := read(prefix+"dirty_target", c3); err != nil {
+			return ps, err
+		}
+		*c1.state = mkW().Interface().(T)
+		if err := read(prefix+"same_live", c1); err != nil {
+			return ps, err
+		}
+		return ps, nil
 	}
+}
+
+// stateRT puts the State into a real modeling.Component built by the real builder
+// with the package's own Spec/State/Resources types.
+func stateRT[S, T, R any](name string) func(v reflect.Value, mkW func() reflect.Value) ([]pair, error) {
+	return holderRT(func() (h stateHolder[T], msg string) {
+		msg = recovered(func() {
+			var spec S
+			c := modeling.NewBuilder[S, T, R]().WithEngine(timing.NewSerialEngine()).WithFreq(1 * timing.GHz).
+				WithSpec(spec).Build(strings.ToUpper(name[:1]) + name[1:])
+			h = stateHolder[T]{&c.State, c}
+		})
+		return h, msg
+	}, "")
+}
+
+// eventDrivenRT does the same with a real modeling.EventDrivenComponent (the library
+// builds none; a few library State types are taken through it as well).
+func eventDrivenRT[S, T, R any](name string) func(v reflect.Value, mkW func() reflect.Value) ([]pair, error) {
+	return holderRT(func() (h stateHolder[T], msg string) {
+		msg = recovered(func() {
+			var spec S
+			c := modeling.NewEventDrivenBuilder[S, T, R]().WithEngine(timing.NewSerialEngine()).
+				WithSpec(spec).Build(strings.ToUpper(name[:1]) + name[1:])
+			h = stateHolder[T]{&c.State, c}
+		})
+		return h, msg
+	}, "eventdriven_")
+}
+
+func regEventDriven[S, T, R any](list *[]libType, name, where string) {
+	var z T
+	*list = append(*list, libType{Name: "state " + name + " (event-driven component)", Kind: "state", Path: "component", Where: where,
+		T: reflect.TypeOf(z), RT: eventDrivenRT[S, T, R](name)})
 }
 
 func regState[S, T, R any](list *[]libType, name, where string) {
@@ -359,6 +485,12 @@ func init() {
 	regState[simplebankedmemory.Spec, simplebankedmemory.State, simplebankedmemory.Resources](l, "simplebankedmemory", "mem/simplebankedmemory/builder.go")
 	regState[dram.Spec, dram.State, dram.Resources](l, "dram", "mem/dram/builder.go")
 	regState[datamover.Spec, datamover.State, modeling.None](l, "datamover", "mem/datamover/builder.go")
+	// the event-driven component has its own SaveCheckpoint/LoadCheckpoint: State types with maps, omitempty
+	// fields and embedded containers go through it too
+	regEventDriven[memaccessagent.Spec, memaccessagent.State, modeling.None](l, "memaccessagent", "mem/acceptancetests/memaccessagent/builder.go")
+	regEventDriven[rob.Spec, rob.State, modeling.None](l, "rob", "mem/rob/builder.go")
+	regEventDriven[tlb.Spec, tlb.State, tlb.Resources](l, "tlb", "mem/vm/tlb/builder.go")
+	regEventDriven[datamover.Spec, datamover.State, modeling.None](l, "datamover", "mem/datamover/builder.go")
 }
 
 // ---- the driver ------------------------------------------------------------------
@@ -367,6 +499,7 @@ type libFailure struct {
 	Type    string `json:"type"`
 	Kind    string `json:"kind"`
 	Path    string `json:"path"`
+	Variant string `json:"variant"`
 	Vector  Vector `json:"vector,omitempty"`
 	Seeded  string `json:"seeded,omitempty"`
 	Feature string `json:"feature"`
@@ -379,34 +512,74 @@ func (f *Filler) lib() *Filler {
 	return f
 }
 
-// classify names the feature behind a failing round trip.
-func classify(lt libType, mk func(sanitize bool) reflect.Value, ps []pair, err error) (string, string) {
-	if err != nil {
-		msg := err.Error()
-		if strings.HasPrefix(msg, "harness:") {
-			return "harness", msg
+// otherClass gives, for the class a position has in V, a different class for W: other
+// map keys (ints/strings differ), longer or shorter slices, non-empty omitempty
+// collections, other container content.
+func otherClass(kind, c string) string {
+	switch kind {
+	case "int", "uint":
+		if c == "max" {
+			return "one"
 		}
-		// does it pass once every string is valid UTF-8?
-		var ps2 []pair
-		var err2 error
-		if recovered(func() { ps2, err2 = lt.RT(mk(true)) }) == "" && err2 == nil {
-			if ok, _, _ := allSame(ps2); ok {
-				return "nonutf8_string", msg
-			}
+		return "max"
+	case "float":
+		if c == "fin" || c == "" {
+			return "max"
 		}
-		return "error", msg
+		return "fin"
+	case "string":
+		if c == "unicode" {
+			return "ascii"
+		}
+		return "unicode"
+	case "bytes":
+		if c == "many" {
+			return "one"
+		}
+		return "many"
+	case "slice", "map":
+		if c == "two" {
+			return "one"
+		}
+		return "two"
+	case "bool":
+		if c == "false" {
+			return "true"
+		}
+		return "false"
+	case "container":
+		if c == "full" {
+			return "part"
+		}
+		return "full"
 	}
-	_, kind, d := allSame(ps)
-	return kind, d
+	return c
 }
 
-func allSame(ps []pair) (bool, string, string) {
+// firstFailures returns, per restore variant, the first pair that differs.
+func firstFailures(ps []pair) (order []string, kind, detail map[string]string) {
+	kind, detail = map[string]string{}, map[string]string{}
 	for _, p := range ps {
-		if ok, kind, d := SameKind(p.want, p.got); !ok {
-			return false, kind, d
+		if _, done := kind[p.variant]; done {
+			continue
+		}
+		if ok, k, d := SameKind(p.want, p.got); !ok {
+			order = append(order, p.variant)
+			kind[p.variant], detail[p.variant] = k, d
 		}
 	}
-	return true, "", ""
+	return order, kind, detail
+}
+
+// errVariant splits "variant: message" as produced by the round-trip functions.
+func errVariant(err error) (string, string) {
+	msg := err.Error()
+	for _, v := range []string{"eventdriven_fresh", "eventdriven_dirty_target", "eventdriven_same_live", "fresh", "dirty_target", "same_live"} {
+		if strings.HasPrefix(msg, v+": ") {
+			return v, msg[len(v)+2:]
+		}
+	}
+	return "fresh", msg
 }
 
 // SameKind is Same (tolerant inside encapsulated containers) plus the kind of the
@@ -565,30 +738,69 @@ func init() {
 			}
 			evals++
 			perType[lt.Name]++
+			mkW := func() reflect.Value {
+				f := (&Filler{Choose: func(kind, path string) string { return otherClass(kind, choose(kind, path)) },
+					Skipped: skipped, MissingCtr: missing}).lib()
+				return f.Make(lt.T)
+			}
 			var ps []pair
 			var err error
-			if msg := recovered(func() { ps, err = lt.RT(mk(false)) }); msg != "" {
+			if msg := recovered(func() { ps, err = lt.RT(mk(false), mkW) }); msg != "" {
 				err = fmt.Errorf("panic: %s", msg)
 			}
-			if err == nil {
-				if ok, _, _ := allSame(ps); ok {
-					for _, p := range ps {
-						if strict, d := Same(p.want, p.got, false); !strict {
-							tolerated++
-							if toleratedExample == "" {
-								toleratedExample = lt.Name + " " + d
-							}
-							break
+			order, kinds, details := firstFailures(ps)
+			if err == nil && len(order) == 0 {
+				for _, p := range ps {
+					if strict, d := Same(p.want, p.got, false); !strict {
+						tolerated++
+						if toleratedExample == "" {
+							toleratedExample = lt.Name + " " + d
 						}
+						break
 					}
-					return
+				}
+				return
+			}
+			add := func(variant, feature, detail string) {
+				failCount++
+				if len(fails) < 200000 {
+					fails = append(fails, libFailure{Type: lt.Name, Kind: lt.Kind, Path: lt.Path, Variant: variant, Vector: vec,
+						Seeded: seeded, Feature: feature, Detail: clipN(detail, 300)})
 				}
 			}
-			failCount++
-			feature, detail := classify(lt, mk, ps, err)
-			if len(fails) < 60000 {
-				fails = append(fails, libFailure{Type: lt.Name, Kind: lt.Kind, Path: lt.Path, Vector: vec, Seeded: seeded,
-					Feature: feature, Detail: clipN(detail, 300)})
+			freshFailed := false
+			for _, v := range order {
+				if strings.HasSuffix(v, "fresh") {
+					freshFailed = true
+				}
+			}
+			for _, v := range order {
+				feature := kinds[v]
+				if !strings.HasSuffix(v, "fresh") && !freshFailed && err == nil {
+					// exact into a rebuilt object, not exact over a used one: something of the target survived
+					feature = "restore_over_used_target_not_exact"
+				}
+				add(v, feature, details[v])
+			}
+			if err != nil {
+				variant, msg := errVariant(err)
+				feature := "error"
+				switch {
+				case strings.HasPrefix(msg, "harness:"):
+					feature = "harness"
+				case !strings.HasSuffix(variant, "fresh") && !freshFailed:
+					feature = "restore_over_used_target_not_exact"
+				default:
+					// does it pass once every string is valid UTF-8?
+					var ps2 []pair
+					var err2 error
+					if recovered(func() { ps2, err2 = lt.RT(mk(true), mkW) }) == "" && err2 == nil {
+						if o2, _, _ := firstFailures(ps2); len(o2) == 0 {
+							feature = "nonutf8_string"
+						}
+					}
+				}
+				add(variant, feature, msg)
 			}
 		}
 		for _, lt := range libTypes {
